@@ -226,17 +226,17 @@ func (res *Resource) AddVersion(version string, available, currentRelease, preRe
 	res.Lock()
 	defer res.Unlock()
 
+	// parse to semver
+	sv, err := semver.NewVersion(version)
+	if err != nil {
+		return err
+	}
+
 	// reset current release flags
 	if currentRelease {
 		for _, rv := range res.Versions {
 			rv.CurrentRelease = false
 		}
-	}
-
-	// parse to semver
-	sv, err := semver.NewVersion(version)
-	if err != nil {
-		return err
 	}
 
 	var rv *ResourceVersion
